@@ -200,6 +200,12 @@ func c10Run(t *testing.T, e *env, idx int, steps []c10Step) {
 			if st.Len == 0 {
 				line = ""
 			}
+			if st.Len >= 8 && st.Len%3 == 0 {
+				// the same number of bytes made of multi-byte characters (the charge is per byte of the line)
+				unit := []string{"é", "日", "😀"}[st.Len%9/3]
+				line = strings.Repeat(unit, st.Len/len(unit))
+				line += strings.Repeat("z", st.Len-len(line))
+			}
 			iss = append(iss, issued{time.Now(), len(line), flood})
 			conn.Raw(line)
 			count++
@@ -442,6 +448,15 @@ func slowHandlers(t *testing.T, prop string) {
 			before, after int // members of #c seen by the tracker at entry and at exit (foreground)
 		}
 		var log []rec
+		discSeen := false
+		// NB: a hang-up while a slow handler runs cannot be played in a bubble — the connection's context watcher then
+		// parks on conn.mu (held by the closing goroutine, which waits for the handler), and a goroutine parked on a
+		// sync.Mutex is not "durably blocked", so the bubble's clock would freeze. That case runs in real time in C03
+		// (sessions with a small Config.Timeout and handlers that outlast it).
+		eofMidway := false
+		if eofMidway && nLines > 20 {
+			nLines = 20
+		}
 		var mu chan struct{} = make(chan struct{}, 1)
 		mu <- struct{}{}
 		hung := true
@@ -499,6 +514,12 @@ func slowHandlers(t *testing.T, prop string) {
 				conn.HandleFunc("JOIN", mk(false))
 			}
 			conn.HandleBG("JOIN", mk(true))
+			conn.HandleFunc(client.DISCONNECTED, func(_ *client.Conn, l *client.Line) {
+				<-mu
+				log = append(log, rec{kind: "DE", at: time.Since(t0)})
+				discSeen = true
+				mu <- struct{}{}
+			})
 			if err := conn.Connect(); err != nil {
 				e.R.Inconcl("connect: " + err.Error())
 				hung = false
@@ -509,18 +530,25 @@ func slowHandlers(t *testing.T, prop string) {
 			for n := 1; n <= nLines; n++ {
 				mc.SendLine(fmt.Sprintf(":n%d!i@h JOIN #c", n))
 			}
+			if eofMidway {
+				mc.SendEOF()
+			}
 			// everything is queued; let virtual time run until all handlers are done
 			for waited := 0; waited < 100000; waited++ {
 				synctest.Wait()
 				<-mu
-				exits := 0
+				exits, enters := 0, 0
 				for _, x := range log {
 					if x.kind == "X" || x.kind == "BX" {
 						exits++
 					}
+					if x.kind == "E" || x.kind == "BE" {
+						enters++
+					}
 				}
+				ds := discSeen
 				mu <- struct{}{}
-				if exits >= nLines*(nh+1) {
+				if exits >= nLines*(nh+1) || (eofMidway && ds && exits == enters) {
 					break
 				}
 				time.Sleep(time.Minute)
@@ -539,9 +567,13 @@ func slowHandlers(t *testing.T, prop string) {
 		// oracle: one line at a time (foreground), and the tracker shows exactly line n (n+1 members incl. me) throughout
 		open := map[int]int{}
 		bad := ""
+		var discAt time.Duration
 		for _, x := range log {
 			switch x.kind {
 			case "E":
+				if discAt != 0 {
+					bad = fmt.Sprintf("a foreground handler of line %d entered at +%v, after DISCONNECTED had been delivered at +%v", x.n, x.at, discAt)
+				}
 				for other, cnt := range open {
 					if other != x.n && cnt > 0 {
 						bad = fmt.Sprintf("foreground handler for line %d entered at +%v while a handler of line %d was still running", x.n, x.at, other)
@@ -556,6 +588,13 @@ func slowHandlers(t *testing.T, prop string) {
 				if prop == "C05" && x.after != x.n+1 {
 					bad = fmt.Sprintf("at the end of a foreground handler for line %d that ran for virtual %v the tracker showed %d members, want %d (a later line was applied while it ran)", x.n, x.at, x.after, x.n+1)
 				}
+			case "DE":
+				for other, cnt := range open {
+					if cnt > 0 {
+						bad = fmt.Sprintf("DISCONNECTED was delivered at +%v while a foreground handler of line %d was still running", x.at, other)
+					}
+				}
+				discAt = x.at
 			case "BE":
 				if prop == "C05" && x.before < x.n+1 {
 					bad = fmt.Sprintf("a background handler for line %d saw %d members, the line itself makes it %d", x.n, x.before, x.n+1)
@@ -567,7 +606,10 @@ func slowHandlers(t *testing.T, prop string) {
 		}
 		if bad != "" {
 			sig := "c03|slow-handler-overlap"
-			if prop == "C05" {
+			if strings.Contains(bad, "DISCONNECTED") {
+				sig = "c03|slow-handler-disconnected"
+			}
+			if prop == "C05" && !strings.Contains(bad, "DISCONNECTED") {
 				sig = "c05|slow-handler-tracker"
 				if strings.Contains(bad, "entered at") {
 					sig = "c05|slow-handler-overlap"
@@ -575,7 +617,7 @@ func slowHandlers(t *testing.T, prop string) {
 			}
 			e.R.Violate(rig.Violation{Sig: sig, Detail: bad, Case: fmt.Sprintf("slow:%d", idx)})
 		}
-		e.R.Class(fmt.Sprintf("slow|maxdur=%v|lines=%d", maxDur, nLines/8))
+		e.R.Class(fmt.Sprintf("slow|maxdur=%v|lines=%d|eof-midway=%v", maxDur, nLines/8, eofMidway))
 		e.R.Count("slow_handler_invocations", int64(len(log)/2))
 		if idx%13 == 0 {
 			e.R.Sample(map[string]interface{}{"virtual_time_session": true, "lines": nLines, "longest_handler": maxDur.String(), "invocations": len(log) / 2})
